@@ -270,7 +270,7 @@ def fingerprint(node):
                      "allow_list_edits_when_same_length"):
             if flag in getattr(n, "__dict__", {}):
                 rec.append((flag, n.__dict__[flag]))
-        rec.append(("parent_ok", parent is None or n.parent is parent or n.parent is None or "shared"))
+        rec.append(("parent_is_container", parent is None or n.parent is parent))
         rec.append(("edited", isinstance(n, gtree.EditedTreeNode)))
         out.append(tuple(rec))
         try:
